@@ -30,7 +30,7 @@ Scope: {p['quantifier']['text']}
 Your job: produce TWO independent, realistic changes (call them A and B) to the library source under {wt}/src/clikit, each of which BREAKS this property while the code still imports and the existing test suite still passes exactly as before (396 passed). Think of the kind of regression a maintainer could introduce by accident during a refactoring or an "optimisation": state that is not reset, a cursor/offset/ordering slip, a cache that is not invalidated, a check moved to the wrong place, two sites that each look fine alone. Each change must need something specific to manifest - a particular interleaving, a multi-step sequence of operations, an unusual input, a particular configuration - NOT something that ordinary use or the simplest call would expose at once. Keep each change small (a few lines) and plausible; do not add obviously malicious code, randomness, environment checks or special-casing of magic values.
 
 For each change deliver, in {wt}/seed_out/A/ and {wt}/seed_out/B/:
-  - patch.diff : `git diff` of that change alone against the worktree's HEAD (apply each change separately from a clean tree: use `git stash`/`git checkout -- .` inside the worktree between A and B);
+  - patch.diff : `git diff` of that change alone against the worktree's HEAD (apply each change separately from a clean tree: use `git diff > file`, `git checkout -- .` and `git apply file` inside the worktree between A and B - never `git stash`, the stash is shared with other worktrees);
   - demo.py : a small standalone program (uses only clikit and the standard library, deterministic, no sleeping on the real clock longer than a second; if the failure needs a particular thread interleaving, force it deterministically, e.g. by wrapping the output stream or monkeypatching time/threading in the demo) that exits 0 and prints OK on the pristine tree and exits non-zero (assertion failure with a clear message) with the change applied;
   - meta.json : {{"property": "{pid}", "summary": "<one sentence: what was changed>", "needs": "<what specific input / sequence / interleaving / configuration is needed for the breakage to show>", "files": ["..."]}}.
 Verify yourself, for each change: (1) the full test suite result is identical with and without the change; (2) demo.py passes without and fails with the change (run both and show the outputs). Leave the worktree clean (`git checkout -- .`) at the end with only the untracked seed_out/ directory in it. In your final message summarise the two changes and paste the verification output.""")
